@@ -423,6 +423,35 @@ func run(r *Rng, tier string, n int) {
 			hostile(h, false, "expansion-hip")
 		}
 	}
+	// the record decoder that is GIVEN its header (UnpackRRWithHeader): every type, RDLENGTH 0..12 and
+	// the true length, in a buffer that continues beyond the RDATA: no panic, and on success exactly
+	// Rdlength octets are consumed
+	for _, t := range AllTypes() {
+		body := r.Bytes(40)
+		for _, rdl := range []int{0, 1, 2, 3, 4, 5, 6, 7, 8, 9, 10, 11, 12, 16, 17, 18, 19, 20, 32, 40} {
+			for _, off := range []int{0, 3} {
+				hd := dns.RR_Header{Name: ".", Rrtype: t, Class: 1, Rdlength: uint16(rdl)}
+				buf := append(make([]byte, 0, 40), body...)
+				st["rrwithheader_checked"]++
+				res := Protect(func() string {
+					rr, o, err := dns.UnpackRRWithHeader(hd, buf, off)
+					if err != nil {
+						return "err"
+					}
+					if rr != nil {
+						_ = rr.String()
+					}
+					if o != off+rdl && rdl != 0 {
+						return "bad-offset"
+					}
+					return "ok"
+				})
+				if res == "panic" || res == "bad-offset" {
+					Viol("C02/unpackrrwithheader-panic", "UnpackRRWithHeader: "+res+" for type "+dns.TypeToString[t]+" Rdlength "+Itoa(rdl)+" off "+Itoa(off), map[string]string{"wire": Hx(buf)})
+				}
+			}
+		}
+	}
 	// random octets behind a plausible header
 	nr := 600
 	if thorough {
